@@ -82,7 +82,7 @@ CLAIMS = {
    note='Trusted: TLC; values > 48 bytes compared through (length, hash).'),
  "C02": dict(
    category="fault_enumeration", design_ref="DESIGN.md §6 C02, §13.1",
-   technique='(1) TLC enumerates the semantic fault space of the Edgebreaker connectivity decoder (MC_EbDecoder: every symbol string up to 4 (5) symbols x declared counts on the guard boundaries x topology-split tables x start-face bits, standard and valence traversal; invariants Guards/GuardsV) and of the sequential mesh connectivity decoder (MC_SeqDecoder: declared points / faces x stored indices in every width x compressed index differences), every row is assembled into a real stream and decoded under ASan+UBSan+libstdc++ assertions, the model predicts accept/reject and the decoded faces (drift only); nested-metadata streams around and far above the nesting limit; (2) fault enumeration over the frozen corpus (every truncation, byte / 32-bit / varint patterns per offset, header and version rewrites, multi-site, splices) decoded through all public entry points under ASan+UBSan with a fork server; TLC (Trace_Fault) validates the Status / termination / input-untouched clauses on the recorded probes',
+   technique='(1) TLC enumerates the semantic fault space of the Edgebreaker connectivity decoder (MC_EbDecoder: every symbol string up to 4 (5) symbols x declared counts on the guard boundaries x topology-split tables x start-face bits, standard and valence traversal; invariants Guards/GuardsV) and of the sequential mesh connectivity decoder (MC_SeqDecoder: declared points / faces x stored indices in every width x compressed index differences), every row is assembled into a real stream and decoded under ASan+UBSan+libstdc++ assertions, the model predicts accept/reject, the decoded faces, the order in which the attribute decoder visits the vertices and the positions under parallelogram prediction (drift only); MC_KdTree: the integer kd-tree coder at request level (round trip and stack/axis bounds model-checked; honest encodings byte-compared with the real encoder, every single changed number / half bit / axis number replayed); MC_LegacyKd (pre-2.3 kd-tree clouds, integer and float method, every combination of the repeated point counts); MC_IntAttr (integer attribute header x values x wrap bounds x declared types); nested-metadata streams around and far above the nesting limit; (2) fault enumeration over the frozen corpus (every truncation, byte / 32-bit / varint patterns per offset, header and version rewrites, multi-site, splices) decoded through all public entry points under ASan+UBSan with a fork server; TLC (Trace_Fault) validates the Status / termination / input-untouched clauses on the recorded probes',
    text='Each (stream, fault) pair is one probe attributed exactly; the only tolerated abnormal exit is an allocation failure; sanitizer reports, signals, hangs, uncaught exceptions and modified inputs are violations. Semantic faults: exhaustive within the stated bounds of MC_EbDecoder (position-only streams, no attribute seams).',
    note="Trusted: ASan/UBSan (memory safety, UB), the fork server's attribution, TLC for the record-level clauses. NDEBUG configuration."),
  "C14": dict(
@@ -97,7 +97,7 @@ CLAIMS = {
    note='Trusted: TLC; tolerance-based value matching in the driver (residual judged by TLC).'),
  "C18": dict(
    category="fault_enumeration", design_ref="DESIGN.md §6 C18",
-   technique='fault enumeration of C02 re-run with allocation accounting (global operator new/delete replaced, DRACO_VERIF_DECLARE hooks): TLC validates AllocBounded (largest request, peak, refused requests <= K0 + K*(len + declared)) on every probe; guard table model-checked by TLC (MC_Alloc)',
+   technique='fault enumeration of C02 re-run with allocation accounting (global operator new/delete replaced, DRACO_VERIF_DECLARE hooks): TLC validates AllocBounded (largest request, peak, refused requests <= K0 + K*(len + declared)) on every probe; the streams generated from the models of C02 (MC_EbDecoder / MC_SeqDecoder / MC_LegacyKd / MC_KdTree / MC_IntAttr rows) decoded under the same accounting; guard table model-checked by TLC (MC_Alloc)',
    text='Every probe that requests >= 64 KiB in one piece is validated; requests above 64 MiB are refused like a failed allocation and judged against the bound with the counts declared at that moment.',
    note="Trusted: the allocation shim (operator new only), the hooks' count reports, constants K0 = 64 MiB, K = 64."),
  "C19": dict(
